@@ -171,8 +171,8 @@ theorem scan_unchanged (e : DEnv κ σ δ) (fs : FS) :
 
 /-- "no collisions" for the dependency chain: those of the key construction, and distinct keys
     get distinct cache directories -/
-structure DEnv.Inj (e : DEnv κ σ δ) : Prop where
-  env : e.toEnv.Inj (fun _ => True)
+structure DEnv.Inj (e : DEnv κ σ δ) (W : J → Prop) : Prop where
+  env : e.toEnv.Inj W
   dir : Function.Injective e.dir
 
 /-- What the proofs use of the regenerated description of applyDependencyHash: the next key is
@@ -189,27 +189,43 @@ structure ChainShape : Prop where
 theorem chainShape : ChainShape := by
   constructor <;> decide
 
+/-- the object hashed for the next key of the chain -/
+def chainObj (e : DEnv κ σ δ) (K : κ) (cur : List (String × κ)) : J :=
+  mkObj [(Gen.chainHashLabel, render e.toEnv Gen.chainRender K),
+         (Gen.chainDepsLabel,
+          J.obj (mkMap (cur.map fun ph => (ph.1, render e.toEnv Gen.chainRender ph.2))))]
+
+theorem nextKey_eq (e : DEnv κ σ δ) (K : κ) (cur : List (String × κ)) :
+    nextKey e K cur = e.H (e.enc (chainObj e K cur)) := rfl
+
 /-- the keys applyDependencyHash can reach from the base key of a configuration, with the
     number of steps -/
-inductive ChainN (e : DEnv κ σ δ) (c : Config) : Nat → κ → Prop
-  | base : ChainN e c 0 (baseKey e.toEnv c)
-  | next {n : Nat} {K : κ} (cur : List (String × κ)) : ChainN e c n K → ChainN e c (n + 1) (nextKey e K cur)
+inductive ChainN (e : DEnv κ σ δ) (W : J → Prop) (c : Config) : Nat → κ → Prop
+  | base : ChainN e W c 0 (baseKey e.toEnv c)
+  | next {n : Nat} {K : κ} (cur : List (String × κ)) (hw : W (chainObj e K cur)) :
+      ChainN e W c n K → ChainN e W c (n + 1) (nextKey e K cur)
 
 theorem chain_render_full (e : DEnv κ σ δ) (cs : ChainShape) : render e.toEnv Gen.chainRender = e.full := by
   rw [cs.render]; rfl
 
-theorem nextKey_inj (e : DEnv κ σ δ) (hi : e.Inj) (cs : ChainShape) {K K' : κ} {cur cur' : List (String × κ)}
+theorem nextKey_inj (e : DEnv κ σ δ) {W : J → Prop} (hi : e.Inj W) (cs : ChainShape) {K K' : κ}
+    {cur cur' : List (String × κ)} (hw : W (chainObj e K cur)) (hw' : W (chainObj e K' cur'))
     (h : nextKey e K cur = nextKey e K' cur') : K = K' := by
-  have h1 := hi.env.enc _ _ trivial trivial (hi.env.H h)
+  rw [nextKey_eq, nextKey_eq] at h
+  have h1 := hi.env.enc _ _ hw hw' (hi.env.H h)
+  unfold chainObj at h1
   have h2 := lookup_of_mkObj_eq h1 Gen.chainHashLabel
   simp only [lookup_cons_eq] at h2
   rw [chain_render_full e cs] at h2
   exact hi.env.full (Option.some.inj h2)
 
-theorem nextKey_ne_base (e : DEnv κ σ δ) (hi : e.Inj) (sh : Shape) (cs : ChainShape) (c : Config) (K : κ)
-    (cur : List (String × κ)) : nextKey e K cur ≠ baseKey e.toEnv c := by
+theorem nextKey_ne_base (e : DEnv κ σ δ) {W : J → Prop} (hi : e.Inj W) (sh : Shape) (cs : ChainShape)
+    (c : Config) (o : Config.Ok e.toEnv W c) (K : κ) (cur : List (String × κ)) (hw : W (chainObj e K cur)) :
+    nextKey e K cur ≠ baseKey e.toEnv c := by
   intro h
-  have h1 := hi.env.enc _ _ trivial trivial (hi.env.H h)
+  rw [nextKey_eq] at h
+  have h1 := hi.env.enc _ _ hw o.key (hi.env.H h)
+  unfold chainObj at h1
   obtain ⟨lp, hlp, hp⟩ := List.any_eq_true.mp cs.sep
   simp only [Bool.and_eq_true, bne_iff_ne, ne_eq] at hp
   obtain ⟨⟨hp1, hp2⟩, hp3⟩ := hp
@@ -224,28 +240,35 @@ theorem nextKey_ne_base (e : DEnv κ σ δ) (hi : e.Inj) (sh : Shape) (cs : Chai
   subst hp1'
   simp [partVal, List.lookup] at h2
 
-theorem chain_unique_aux (e : DEnv κ σ δ) (hi : e.Inj) (sh : Shape) (cs : ChainShape) {c c' : Config}
-    {n : Nat} {K : κ} (h1 : ChainN e c n K) :
-    ∀ (m : Nat) (K' : κ), ChainN e c' m K' → K = K' →
+theorem chain_unique_aux (e : DEnv κ σ δ) {W : J → Prop} (hi : e.Inj W) (sh : Shape) (cs : ChainShape)
+    {c c' : Config} (o : Config.Ok e.toEnv W c) (o' : Config.Ok e.toEnv W c')
+    {n : Nat} {K : κ} (h1 : ChainN e W c n K) :
+    ∀ (m : Nat) (K' : κ), ChainN e W c' m K' → K = K' →
       n = m ∧ baseKey e.toEnv c = baseKey e.toEnv c' := by
   induction h1 with
   | base =>
     intro m K' h2 hk
     cases h2 with
     | base => exact ⟨rfl, hk⟩
-    | next cur h2' => exact absurd hk.symm (nextKey_ne_base e hi sh cs c _ cur)
-  | next cur h1' ih =>
+    | next cur hw h2' => exact absurd hk.symm (nextKey_ne_base e hi sh cs c o _ cur hw)
+  | next cur hw h1' ih =>
     intro m K' h2 hk
     cases h2 with
-    | base => exact absurd hk (nextKey_ne_base e hi sh cs c' _ cur)
-    | next cur' h2' =>
-      obtain ⟨e1, e2⟩ := ih _ _ h2' (nextKey_inj e hi cs hk)
+    | base => exact absurd hk (nextKey_ne_base e hi sh cs c' o' _ cur hw)
+    | next cur' hw' h2' =>
+      obtain ⟨e1, e2⟩ := ih _ _ h2' (nextKey_inj e hi cs hw hw' hk)
       exact ⟨by omega, e2⟩
 
-theorem chain_unique (e : DEnv κ σ δ) (hi : e.Inj) (sh : Shape) (cs : ChainShape) {c c' : Config}
-    {n m : Nat} {K : κ} (h1 : ChainN e c n K) (h2 : ChainN e c' m K) :
+theorem chain_unique (e : DEnv κ σ δ) {W : J → Prop} (hi : e.Inj W) (sh : Shape) (cs : ChainShape)
+    {c c' : Config} (o : Config.Ok e.toEnv W c) (o' : Config.Ok e.toEnv W c')
+    {n m : Nat} {K : κ} (h1 : ChainN e W c n K) (h2 : ChainN e W c' m K) :
     n = m ∧ baseKey e.toEnv c = baseKey e.toEnv c' :=
-  chain_unique_aux e hi sh cs h1 m K h2 rfl
+  chain_unique_aux e hi sh cs o o' h1 m K h2 rfl
+
+/-- every chain object that can arise while resolving against this cache under this file system
+    lies in `W` -/
+def CacheW (e : DEnv κ σ δ) (W : J → Prop) (fs : FS) (cache : Cache κ δ β) : Prop :=
+  ∀ d ent K, cache.lookup d = some ent → W (chainObj e K (scanDeps e fs ent.deps).1)
 
 /-! ### applyDependencyHash -/
 
@@ -290,9 +313,10 @@ theorem resolve_fuel (e : DEnv κ σ δ) (fs : FS) (cache : Cache κ δ β) :
             · exact hsub d m
           · simp only [List.length_cons]; omega
 
-theorem resolve_chain (e : DEnv κ σ δ) (fs : FS) (cache : Cache κ δ β) (c : Config) :
-    ∀ (fuel : Nat) (vis : List δ) (K : κ) (i : Nat) (K' : κ), ChainN e c i K →
-      resolve e fs cache fuel vis K = .found K' → ∃ j, ChainN e c j K' := by
+theorem resolve_chain (e : DEnv κ σ δ) (W : J → Prop) (fs : FS) (cache : Cache κ δ β)
+    (hcw : CacheW e W fs cache) (c : Config) :
+    ∀ (fuel : Nat) (vis : List δ) (K : κ) (i : Nat) (K' : κ), ChainN e W c i K →
+      resolve e fs cache fuel vis K = .found K' → ∃ j, ChainN e W c j K' := by
   intro fuel
   induction fuel with
   | zero => intro vis K i K' _ h; simp [resolve] at h
@@ -312,7 +336,7 @@ theorem resolve_chain (e : DEnv κ σ δ) (fs : FS) (cache : Cache κ δ β) (c 
         by_cases hv : e.dir K ∈ vis
         · rw [if_pos hv] at h; simp at h
         · rw [if_neg hv] at h
-          exact ih _ _ (i + 1) K' (ChainN.next _ hc) h
+          exact ih _ _ (i + 1) K' (ChainN.next _ (hcw _ ent K hl) hc) h
 
 /-- the key the loop returns either has no build file or all its recorded dependencies are unchanged -/
 theorem resolve_found_spec (e : DEnv κ σ δ) (fs : FS) (cache : Cache κ δ β) :
@@ -343,10 +367,10 @@ theorem resolve_found_spec (e : DEnv κ σ δ) (fs : FS) (cache : Cache κ δ β
           exact ih _ _ K' h ent' hent'
 
 /-- without collisions the loop never comes back to a directory it left -/
-theorem resolve_no_cycle (e : DEnv κ σ δ) (hi : e.Inj) (sh : Shape) (cs : ChainShape) (fs : FS)
-    (cache : Cache κ δ β) (c : Config) :
-    ∀ (fuel : Nat) (vis : List δ) (K : κ) (i : Nat), ChainN e c i K →
-      (∀ d ∈ vis, ∃ j K'', j < i ∧ ChainN e c j K'' ∧ e.dir K'' = d) →
+theorem resolve_no_cycle (e : DEnv κ σ δ) {W : J → Prop} (hi : e.Inj W) (sh : Shape) (cs : ChainShape)
+    (fs : FS) (cache : Cache κ δ β) (hcw : CacheW e W fs cache) (c : Config) (o : Config.Ok e.toEnv W c) :
+    ∀ (fuel : Nat) (vis : List δ) (K : κ) (i : Nat), ChainN e W c i K →
+      (∀ d ∈ vis, ∃ j K'', j < i ∧ ChainN e W c j K'' ∧ e.dir K'' = d) →
       ∀ K', resolve e fs cache fuel vis K ≠ .cycle K' := by
   intro fuel
   induction fuel with
@@ -366,10 +390,10 @@ theorem resolve_no_cycle (e : DEnv κ σ δ) (hi : e.Inj) (sh : Shape) (cs : Cha
           obtain ⟨j, K'', hj, hc'', hd⟩ := hvis _ hv
           have hk : K'' = K := hi.dir hd
           rw [hk] at hc''
-          have := (chain_unique e hi sh cs hc'' hc).1
+          have := (chain_unique e hi sh cs o o hc'' hc).1
           omega
         · rw [if_neg hv]
-          apply ih _ _ (i + 1) (ChainN.next _ hc)
+          apply ih _ _ (i + 1) (ChainN.next _ (hcw _ ent K hl) hc)
           intro d hd
           rcases List.mem_cons.mp hd with e' | m
           · exact ⟨i, K, Nat.lt_succ_self i, hc, e'.symm⟩
@@ -380,15 +404,16 @@ theorem resolve_no_cycle (e : DEnv κ σ δ) (hi : e.Inj) (sh : Shape) (cs : Cha
 
 /-- every cache entry was compiled for some configuration, under a key of that configuration's
     chain, from the expansion whose files and hashes it records -/
-def Inv (e : DEnv κ σ δ) (compile : String × List (Option J) → List (String × String) → β)
+def Inv (e : DEnv κ σ δ) (W : J → Prop) (compile : String × List (Option J) → List (String × String) → β)
     (cache : Cache κ δ β) : Prop :=
   ∀ d ent, cache.lookup d = some ent →
     ∃ (c' : Config) (n : Nat) (K : κ) (fs' : FS) (x : List (String × String)),
-      ChainN e c' n K ∧ e.dir K = d ∧ expand e.incl fs' e.depth (e.incl c'.src) = some x ∧
+      Config.Ok e.toEnv W c' ∧
+      ChainN e W c' n K ∧ e.dir K = d ∧ expand e.incl fs' e.depth (e.incl c'.src) = some x ∧
       ent.deps = depsOf e x ∧ ent.bin = compile c'.view x
 
-theorem inv_nil (e : DEnv κ σ δ) (compile : String × List (Option J) → List (String × String) → β) :
-    Inv e compile ([] : Cache κ δ β) := by
+theorem inv_nil (e : DEnv κ σ δ) (W : J → Prop) (compile : String × List (Option J) → List (String × String) → β) :
+    Inv e W compile ([] : Cache κ δ β) := by
   intro d ent h
   simp [List.lookup] at h
 
@@ -425,10 +450,11 @@ theorem build_miss (e : DEnv κ σ δ) (compile : String × List (Option J) → 
 /-- one build: the invariant is kept, a completed build (hit or miss) runs the binary the
     compiler produces from the current configuration and the current expansion, a rejected
     build has no expansion, and the key resolution does not fail -/
-theorem build_current (e : DEnv κ σ δ) (hi : e.Inj)
+theorem build_current (e : DEnv κ σ δ) {W : J → Prop} (hi : e.Inj W)
     (compile : String × List (Option J) → List (String × String) → β)
-    (fs : FS) (cache : Cache κ δ β) (hinv : Inv e compile cache) (c : Config) :
-    Inv e compile (build e compile fs cache c).1 ∧
+    (fs : FS) (cache : Cache κ δ β) (hinv : Inv e W compile cache) (hcw : CacheW e W fs cache)
+    (c : Config) (o : Config.Ok e.toEnv W c) :
+    Inv e W compile (build e compile fs cache c).1 ∧
     (∀ b, ((build e compile fs cache c).2.1 = .hit b ∨ (build e compile fs cache c).2.1 = .miss b) →
         ∃ x, expand e.incl fs e.depth (e.incl c.src) = some x ∧ b = compile c.view x) ∧
     ((build e compile fs cache c).2.1 = .parseError → expand e.incl fs e.depth (e.incl c.src) = Option.none) ∧
@@ -439,9 +465,9 @@ theorem build_current (e : DEnv κ σ δ) (hi : e.Inj)
   | outOfFuel =>
     exact absurd hres (resolve_fuel e fs cache _ [] _ List.nodup_nil (by simp) (by simp))
   | cycle K =>
-    exact absurd hres (resolve_no_cycle e hi sh cs fs cache c _ [] _ 0 ChainN.base (by simp) K)
+    exact absurd hres (resolve_no_cycle e hi sh cs fs cache hcw c o _ [] _ 0 ChainN.base (by simp) K)
   | found K =>
-    obtain ⟨j, hch⟩ := resolve_chain e fs cache c _ [] _ 0 K ChainN.base hres
+    obtain ⟨j, hch⟩ := resolve_chain e W fs cache hcw c _ [] _ 0 K ChainN.base hres
     cases hl : cache.lookup (e.dir K) with
     | some ent =>
       rw [build_hit e compile fs cache c hres hl]
@@ -451,12 +477,12 @@ theorem build_current (e : DEnv κ σ δ) (hi : e.Inj)
         rcases hb with hb | hb
         · exact (Outcome.hit.inj hb).symm
         · simp at hb
-      obtain ⟨c', n, K0, fs', x, hc0, hd0, hx0, hdeps, hbin⟩ := hinv _ _ hl
+      obtain ⟨c', n, K0, fs', x, o', hc0, hd0, hx0, hdeps, hbin⟩ := hinv _ _ hl
       have hK : K0 = K := hi.dir hd0
       rw [hK] at hc0
-      have hbase := (chain_unique e hi sh cs hc0 hch).2
-      have hview : c'.view = c.view := view_eq_of_baseKey_eq e.toEnv hi.env sh (Config.ok_all _ _) (Config.ok_all _ _) hbase
-      have hsrc : c'.src = c.src := src_eq_of_baseKey_eq e.toEnv hi.env sh (Config.ok_all _ _) (Config.ok_all _ _) hbase
+      have hbase := (chain_unique e hi sh cs o' o hc0 hch).2
+      have hview : c'.view = c.view := view_eq_of_baseKey_eq e.toEnv hi.env sh o' o hbase
+      have hsrc : c'.src = c.src := src_eq_of_baseKey_eq e.toEnv hi.env sh o' o hbase
       have hscan := resolve_found_spec e fs cache _ _ _ _ hres ent hl
       refine ⟨x, ?_, by rw [hb', hbin, hview]⟩
       rw [← hsrc]
@@ -480,7 +506,7 @@ theorem build_current (e : DEnv κ σ δ) (hi : e.Inj)
           · rw [if_pos hd] at hlk
             have := Option.some.inj hlk
             subst this
-            exact ⟨c, j, K, fs, x, hch, hd.symm, hx, rfl, rfl⟩
+            exact ⟨c, j, K, fs, x, o, hch, hd.symm, hx, rfl, rfl⟩
           · rw [if_neg hd] at hlk
             exact hinv d ent hlk
         · intro b hb
@@ -489,19 +515,37 @@ theorem build_current (e : DEnv κ σ δ) (hi : e.Inj)
           · simp at hb
           · exact (Outcome.miss.inj hb).symm
 
-theorem inv_step (e : DEnv κ σ δ) (hi : e.Inj)
+/-- what a history must satisfy so that `W` covers everything it feeds to the encoder: every
+    configuration built lies in `W`'s domain, and so do the chain objects of every cache that
+    satisfies the invariant -/
+structure HistOk (e : DEnv κ σ δ) (W : J → Prop)
+    (compile : String × List (Option J) → List (String × String) → β) (ops : List Op) : Prop where
+  cfg : ∀ c, Op.build c ∈ ops → Config.Ok e.toEnv W c
+  cache : ∀ (cache : Cache κ δ β) (fs : FS), Inv e W compile cache → CacheW e W fs cache
+
+theorem histOk_all (e : DEnv κ σ δ) (compile : String × List (Option J) → List (String × String) → β)
+    (ops : List Op) : HistOk (β := β) e (fun _ => True) compile ops :=
+  ⟨fun _ _ => Config.ok_all _ _, fun _ _ _ _ _ _ _ => trivial⟩
+
+theorem inv_step (e : DEnv κ σ δ) {W : J → Prop} (hi : e.Inj W)
     (compile : String × List (Option J) → List (String × String) → β)
-    (s : State κ δ β) (hinv : Inv e compile s.cache) (op : Op) :
-    Inv e compile (step e compile s op).1.cache := by
+    (s : State κ δ β) (hinv : Inv e W compile s.cache)
+    (hcw : ∀ fs, CacheW e W fs s.cache) (op : Op) (hop : ∀ c, op = Op.build c → Config.Ok e.toEnv W c) :
+    Inv e W compile (step e compile s op).1.cache := by
   cases op with
   | write p t => exact hinv
   | remove p => exact hinv
-  | build c => exact (build_current e hi compile s.fs s.cache hinv c).1
+  | build c => exact (build_current e hi compile s.fs s.cache hinv (hcw _) c (hop c rfl)).1
 
-theorem inv_run (e : DEnv κ σ δ) (hi : e.Inj)
+theorem inv_run (e : DEnv κ σ δ) {W : J → Prop} (hi : e.Inj W)
     (compile : String × List (Option J) → List (String × String) → β) :
-    ∀ (ops : List Op) (s : State κ δ β), Inv e compile s.cache → Inv e compile (run e compile s ops).cache
-  | [], _, h => h
-  | op :: ops, s, h => inv_run e hi compile ops (step e compile s op).1 (inv_step e hi compile s h op)
+    ∀ (ops : List Op) (s : State κ δ β), HistOk e W compile ops → Inv e W compile s.cache →
+      Inv e W compile (run e compile s ops).cache
+  | [], _, _, h => h
+  | op :: ops, s, ho, h =>
+    inv_run e hi compile ops (step e compile s op).1
+      ⟨fun c hc => ho.cfg c (List.mem_cons_of_mem _ hc), ho.cache⟩
+      (inv_step e hi compile s h (fun fs => ho.cache _ fs h) op
+        (fun c hc => ho.cfg c (by rw [hc]; exact List.mem_cons_self)))
 
 end Occa.DepHash
